@@ -4,9 +4,11 @@ import (
 	"embed"
 	"encoding/binary"
 	"encoding/hex"
+	"fmt"
 	"strings"
 	"testing"
 
+	of "github.com/contiv/libOpenflow/openflow13"
 	"verifharness/ev"
 )
 
@@ -14,11 +16,6 @@ import (
 // cause (fixed or listed as a known finding). They run at the start of every
 // check so that (a) a repaired defect that returns is reported without relying
 // on the random search and (b) every listed finding is exercised on every run.
-
-func regressC01(t *testing.T, c *ev.Collector) {}
-func regressC02(t *testing.T, c *ev.Collector) {}
-func regressC03(t *testing.T, c *ev.Collector) {}
-func regressC04(t *testing.T, c *ev.Collector) {}
 
 //go:embed testdata/regress/*.txt
 var regressFS embed.FS
@@ -86,4 +83,231 @@ func regressC08(t *testing.T, c *ev.Collector) {
 	c.LabelN("regress_inputs", int64(len(inputs)))
 	c.FailIfViolations(t)
 }
-func regressC05(t *testing.T, c *ev.Collector) {}
+
+// ---------------------------------------------------------------------------
+// Directed regressions of the repaired encode / round-trip defects: one small,
+// generator-free case per root cause, run in shard 0 at the start of the
+// property's check. A case returns "" when the repaired behaviour holds.
+
+type directed struct {
+	name string
+	run  func() string
+}
+
+func be16at(b []byte, o int) int { return int(binary.BigEndian.Uint16(b[o:])) }
+
+func runDirected(t *testing.T, c *ev.Collector, prop string, cases []directed) {
+	if !shard0() {
+		return
+	}
+	for _, d := range cases {
+		c.Eval()
+		var res string
+		if fr, msg := safeCall(func() { res = d.run() }); fr != "" {
+			res = "panic in " + fr + ": " + msg
+		}
+		if res != "" {
+			c.Report(nil, prop+"|regress|"+d.name, res, d.name)
+		}
+	}
+	c.LabelN("directed_regressions", int64(len(cases)))
+	c.FailIfViolations(t)
+}
+
+func flowModWithInstr(cmd uint8) *of.FlowMod {
+	f := of.NewFlowMod()
+	f.Command = cmd
+	f.OutPort, f.OutGroup = 1, 2
+	i := of.NewInstrApplyActions()
+	i.AddAction(of.NewActionOutput(7), false)
+	f.AddInstruction(i)
+	return f
+}
+
+func regressC01(t *testing.T, c *ev.Collector) {
+	runDirected(t, c, "C01", []directed{
+		{"flow-mod-delete-with-instructions", func() string {
+			for _, cmd := range []uint8{of.FC_DELETE, of.FC_DELETE_STRICT} {
+				b, _ := flowModWithInstr(cmd).MarshalBinary()
+				if be16at(b, 2) != len(b) {
+					return fmt.Sprintf("command %d: header length %d, %d bytes", cmd, be16at(b, 2), len(b))
+				}
+			}
+			return ""
+		}},
+		{"group-mod-delete-with-buckets", func() string {
+			g := of.NewGroupMod()
+			g.Command = of.OFPGC_DELETE
+			bk := of.NewBucket()
+			bk.AddAction(of.NewActionOutput(1))
+			g.AddBucket(*bk)
+			b, _ := g.MarshalBinary()
+			if be16at(b, 2) != len(b) || int(g.Len()) != len(b) {
+				return fmt.Sprintf("header length %d, Len %d, %d bytes", be16at(b, 2), g.Len(), len(b))
+			}
+			return ""
+		}},
+		{"port-mod-header", func() string {
+			b, _ := of.NewPortMod(3).MarshalBinary()
+			if b[0] != 4 || b[1] != 16 || be16at(b, 2) != len(b) {
+				return fmt.Sprintf("header %x", b[:8])
+			}
+			return ""
+		}},
+	})
+}
+
+func regressC02(t *testing.T, c *ev.Collector) {
+	runDirected(t, c, "C02", []directed{
+		{"resubmit-action-type", func() string {
+			b, _ := of.NewNXActionResubmit(5).MarshalBinary()
+			if be16at(b, 0) != 0xffff {
+				return fmt.Sprintf("action type %#x", be16at(b, 0))
+			}
+			return ""
+		}},
+		{"dec-ttl-cnt-ids-aligned", func() string {
+			for n := 0; n < 9; n++ {
+				ids := make([]uint16, n)
+				b, _ := of.NewNXActionDecTTLCntIDs(uint16(n), ids...).MarshalBinary()
+				if len(b)%8 != 0 || be16at(b, 2) != len(b) {
+					return fmt.Sprintf("%d ids: %d bytes, length field %d", n, len(b), be16at(b, 2))
+				}
+			}
+			return ""
+		}},
+		{"bundle-add-padding", func() string {
+			sc := of.NewSetConfig() // 12 bytes: needs 4 pad bytes before the properties
+			p := of.NewBundlePropertyExperimenter()
+			p.Length = 12
+			m := of.NewBundleAdd(&of.BundleAdd{BundleID: 1, Message: sc, Properties: []of.BundlePropertyExperimenter{*p, *p}})
+			b, _ := m.MarshalBinary()
+			// 16 vendor header + 8 + 12 message + 4 pad + 2 x (12 + 4 pad)
+			if len(b) != 16+8+12+4+32 || be16at(b, 2) != len(b) || be16at(b, 40) != 0xffff || be16at(b, 56) != 0xffff {
+				return fmt.Sprintf("%d bytes: %x", len(b), b)
+			}
+			return ""
+		}},
+	})
+}
+
+func regressC03(t *testing.T, c *ev.Collector) {
+	runDirected(t, c, "C03", []directed{
+		{"flow-mod-out-group-slot", func() string {
+			b, _ := flowModWithInstr(of.FC_ADD).MarshalBinary()
+			if binary.BigEndian.Uint32(b[36:]) != 1 || binary.BigEndian.Uint32(b[40:]) != 2 {
+				return fmt.Sprintf("out_port slot %x out_group slot %x", b[36:40], b[40:44])
+			}
+			return ""
+		}},
+		{"nat-proto-max-only", func() string {
+			a := of.NewNXActionCTNAT()
+			mx := uint16(0x1234)
+			a.SetRangeProtoMax(&mx)
+			b, _ := a.MarshalBinary()
+			// 16-byte fixed part, range_present at 14..15 = 32 (proto max), then the port
+			if len(b) != 24 || be16at(b, 14) != 32 || be16at(b, 16) != 0x1234 {
+				return fmt.Sprintf("%x", b)
+			}
+			return ""
+		}},
+	})
+}
+
+func regressC04(t *testing.T, c *ev.Collector) {
+	runDirected(t, c, "C04", []directed{
+		{"port-status-port-description", func() string {
+			b := make([]byte, 80)
+			b[0], b[1], b[3] = 4, 12, 80
+			b[8] = 2                                   // reason
+			binary.BigEndian.PutUint32(b[16:], 0x0a0b) // port_no
+			copy(b[24:], []byte{1, 2, 3, 4, 5, 6})
+			copy(b[32:], "eth7")
+			m, err := of.Parse(b)
+			ps, ok := m.(*of.PortStatus)
+			if err != nil || !ok {
+				return fmt.Sprintf("%T %v", m, err)
+			}
+			if ps.Reason != 2 || ps.Desc.PortNo != 0x0a0b || ps.Desc.HWAddr.String() != "01:02:03:04:05:06" || string(ps.Desc.Name[:4]) != "eth7" {
+				return fmt.Sprintf("reason %d port %#x hw %v name %q", ps.Reason, ps.Desc.PortNo, ps.Desc.HWAddr, ps.Desc.Name)
+			}
+			return ""
+		}},
+	})
+}
+
+func regressC05(t *testing.T, c *ev.Collector) {
+	runDirected(t, c, "C05", []directed{
+		{"set-queue-followed-by-another-action", func() string {
+			a, _ := of.NewActionSetQueue(9).MarshalBinary()
+			o, _ := of.NewActionOutput(1).MarshalBinary()
+			d, err := of.DecodeAction(append(a, o...))
+			if err != nil {
+				return err.Error()
+			}
+			if q, ok := d.(*of.ActionSetqueue); !ok || q.QueueId != 9 {
+				return fmt.Sprintf("%T %+v", d, d)
+			}
+			return ""
+		}},
+		{"packet-in-cookie-slot", func() string {
+			p := of.NewPacketIn()
+			p.BufferId, p.TotalLen, p.Reason, p.TableId, p.Cookie = 0x01020304, 0x0506, 7, 8, 0x1112131415161718
+			b, _ := p.MarshalBinary()
+			if binary.BigEndian.Uint32(b[8:]) != 0x01020304 || be16at(b, 12) != 0x0506 || b[14] != 7 || b[15] != 8 || binary.BigEndian.Uint64(b[16:]) != 0x1112131415161718 {
+				return fmt.Sprintf("%x", b[8:24])
+			}
+			return ""
+		}},
+		{"features-reply-datapath-id", func() string {
+			f := of.NewFeaturesReply()
+			copy(f.DPID, []byte{1, 2, 3, 4, 5, 6, 7, 8})
+			f.Buffers = 0x0a0b0c0d
+			b, _ := f.MarshalBinary()
+			if len(b) != 32 || string(b[8:16]) != "\x01\x02\x03\x04\x05\x06\x07\x08" || binary.BigEndian.Uint32(b[16:]) != 0x0a0b0c0d {
+				return fmt.Sprintf("%x", b)
+			}
+			return ""
+		}},
+		{"arp-sha-field-decodes", func() string {
+			f := of.NewArpShaField([]byte{1, 2, 3, 4, 5, 6})
+			b, _ := f.MarshalBinary()
+			d := new(of.MatchField)
+			if err := d.UnmarshalBinary(b); err != nil {
+				return err.Error()
+			}
+			b2, _ := d.MarshalBinary()
+			if string(b2) != string(b) {
+				return fmt.Sprintf("%x -> %x", b, b2)
+			}
+			return ""
+		}},
+		{"experimenter-oxm-reencodes", func() string {
+			w := []byte{0xff, 0xff, 42 << 1, 6, 0x4f, 0x4e, 0x46, 0x00, 0x01, 0x02}
+			d := new(of.MatchField)
+			if err := d.UnmarshalBinary(w); err != nil {
+				return err.Error()
+			}
+			b2, _ := d.MarshalBinary()
+			if string(b2) != string(w) {
+				return fmt.Sprintf("%x -> %x", w, b2)
+			}
+			return ""
+		}},
+		{"packet-out-decodes", func() string {
+			p := of.NewPacketOut()
+			p.AddAction(of.NewActionOutput(2))
+			p.SetData([]byte{9, 8, 7})
+			b, _ := p.MarshalBinary()
+			d := of.NewPacketOut()
+			if err := d.UnmarshalBinary(b); err != nil {
+				return err.Error()
+			}
+			b2, _ := d.MarshalBinary()
+			if string(b2) != string(b) || len(d.Actions) != 1 {
+				return fmt.Sprintf("%x -> %x", b, b2)
+			}
+			return ""
+		}},
+	})
+}
